@@ -260,10 +260,13 @@ def classify_sync(owner, it):
     if m and owner == "LdapConn" and not ps: return '.inline .ldap "%s"' % m.group(1)
     d = classify_ctor(b, env, "")
     if d and owner == "LdapConn" and it["ret"] == "->Result<Self>": return d
-    m = re.fullmatch(r"let rt=runtime::Builder::new_(\w+)\(\)\.enable_all\(\)\.build\(\)\?;let ldap=rt\.block_on\(async move\{"
+    # the runtime is handed over on success; on failure it is either dropped (`?`) or shut down in the
+    # background (fix F25: do not wait for a blocked name lookup) - both are the same `connect` row
+    m = re.fullmatch(r"let rt=runtime::Builder::new_(\w+)\(\)\.enable_all\(\)\.build\(\)\?;let (?:ldap|res)=rt\.block_on\(async move\{"
                      r"let\(conn,ldap\)=(?:match (LdapConnAsync::\w+)\(([^(){}]*)\)\.await\{Ok\(\(conn,ldap\)\)=>\(conn,ldap\),"
                      r"Err\(e\)=>return Err\(e\),\}|(LdapConnAsync::\w+)\(([^(){}]*)\)\.await\?);(super::drive!\(conn\);)?"
-                     r"Ok(?:::<_,LdapError>)?\(ldap\)\}\)\?;Ok\(LdapConn\{ldap,rt\}\)", b)
+                     r"Ok(?:::<_,LdapError>)?\(ldap\)\}\)(?:\?;Ok\(LdapConn\{ldap,rt\}\)|;match res\{Ok\(ldap\)=>Ok\(LdapConn\{ldap,rt\}\),"
+                     r"Err\(e\)=>\{rt\.shutdown_background\(\);Err\(e\)\},?\},?)", b)
     if m and owner == "LdapConn" and it["ret"] == "->Result<Self>":
         callee, cargs = (m.group(2), m.group(3)) if m.group(2) else (m.group(4), m.group(5))
         return '.connect "%s" "%s" %s %s' % (m.group(1), callee, args_of(cargs, env), "true" if m.group(6) else "false")
